@@ -220,6 +220,10 @@ def main(argv):
             nat = ob.get('replay_done') or {'reproduced': True}
         else:
             nat = native_replay(prop, r, ob, path, env)
+            if nat.get('reproduced'):
+                kname = 'bounded-native-search:' + str((nat.get('witness') or {}).get('kind', (nat.get('witness') or {}).get('what', 'failing-input')))[:80]
+                if match_known(known, prop, {'name': kname, 'note': json.dumps(nat.get('witness'), default=str)}) is not None:
+                    nat = {'reproduced': False, 'detail': 'the native search only reproduced the known finding ' + kname, 'tried': nat.get('tried')}
         rep['native_replay'] = nat
         json.dump(rep, open(path, 'w'), indent=1, default=str)
         suffix = '' if nat.get('reproduced') else ' no-failing-input-found'
@@ -242,6 +246,11 @@ def main(argv):
                'source_sha256': r.get('sha256'), 'note': 'function changed and can no longer be verified: ' + why, 'inputs': None, 'verifier_output': why}
         json.dump(rep, open(path, 'w'), indent=1, default=str)
         nat = native_replay(prop, r, {}, path, env)
+        if nat.get('reproduced'):
+            # a witness that is a listed known finding says nothing about this change
+            kname = 'bounded-native-search:' + str((nat.get('witness') or {}).get('kind', (nat.get('witness') or {}).get('what', 'failing-input')))[:80]
+            if match_known(known, prop, {'name': kname, 'note': json.dumps(nat.get('witness'), default=str)}) is not None:
+                nat = {'reproduced': False, 'detail': 'the native search only reproduced the known finding ' + kname, 'tried': nat.get('tried')}
         rep['native_replay'] = nat
         json.dump(rep, open(path, 'w'), indent=1, default=str)
         if nat.get('reproduced'):
